@@ -209,6 +209,15 @@ pub fn api_any_cases(r: &mut Rng, n: usize) -> Vec<Case> {
     let exprs = ["x", "x^2", "", "(", "x+", "sin", "sin(x", "y", "2x", "x**", "1/0", "ln(0-1)", "0/0", "inf", "nan", "abs(x)", "1/x", "ln(x)", "sqrt(x)", "5", "x**-1", "--x", "x y", "é", "x)", "1e400*x", "tan(x)", "x^x"];
     let ivs = ["[0,1]", "[1,0]", "[0,0]", "", "[0,1", "0,1]", "[0,1],[2,3]", "[0,1],", "[x,1]", "[0,1,2]", "[[0,1]]", "[0,inf]", "[nan,1]", "[-1,1]", "[1e308,-1e308]", "[0,1] junk", "[1/0,2]", "[0,1e-300]"];
     let tols = [0.0, 1e-12, 1e-6, 1.0, f64::NAN, -1.0, f64::INFINITY];
+    // long malformed texts (error messages echo the unparsed remainder), with multi-byte characters at
+    // every alignment so that a byte-indexed cut of the message would split one
+    let long: Vec<String> = (0..6).map(|k| format!("x{}{}", ")".repeat(k), "é".repeat(140))).chain((0..3).map(|k| format!("x + 1 {}{}", "q".repeat(150 + k), "→".repeat(60)))).collect();
+    for (k, l) in long.iter().enumerate() {
+        let cfg = Cfg { ci: false, xr: 2, yr: 2, ic: 1, mrf: 10, mi: 10, tol: 1e-6 };
+        cases.push(Case { rs: k % 2 == 1, f: l.clone(), c: "0".into(), iv: "[0,1]".into(), cfg: cfg.clone(), kind: "api-any", poly: None, roots: None, saddle: false, rs_tp: None });
+        cases.push(Case { rs: k % 2 == 0, f: "x".into(), c: l.clone(), iv: "[0,1]".into(), cfg: cfg.clone(), kind: "api-any", poly: None, roots: None, saddle: false, rs_tp: None });
+        cases.push(Case { rs: false, f: "x".into(), c: "0".into(), iv: format!("[0,1]{}", l), cfg, kind: "api-any", poly: None, roots: None, saddle: false, rs_tp: None });
+    }
     for i in 0..n {
         let rs = i % 2 == 1;
         let cfg = Cfg { ci: r.chance(0.6), xr: *r.pick(&[0usize, 1, 3, 10, 64]), yr: *r.pick(&[0usize, 1, 5, 64]), ic: *r.pick(&[0usize, 1, 7, 64]), mrf: *r.pick(&[0usize, 1, 5, 50, 200]), mi: *r.pick(&[0usize, 1, 10, 200]), tol: *r.pick(&tols) };
